@@ -73,6 +73,15 @@ theorem deltaEq_iff (th a b : Nat) :
   unfold deltaEq
   split <;> simp <;> omega
 
+theorem deltaEqG_iff {F : Type} [Field F] [LinearOrder F] [IsStrictOrderedRing F] (th a b : F) :
+    deltaEqG th a b = true ↔ |a - b| < th := by
+  unfold deltaEqG
+  by_cases h : a < b
+  · simp only [h, if_true, decide_eq_true_eq]
+    rw [abs_of_neg (by linarith)]; constructor <;> intro _ <;> linarith
+  · simp only [h, if_false, decide_eq_true_eq]
+    rw [abs_of_nonneg (by linarith)]
+
 /-! ### And / Or / Not -/
 
 /-- Boolean values of a list of operands (specification side). -/
